@@ -1,4 +1,4 @@
-import GnoVerif.Proofs.C06Dangle
+import GnoVerif.Proofs.C06Prog
 /-!
 C06 — the persisted object graph stays consistent after every transaction.
 
@@ -40,15 +40,18 @@ What is proved here, for ALL heaps, realms, operands and fuel values:
   transactions that never attach an already deleted object, at every boundary
   every slot of a counted object points to a counted object.
 
-What is NOT proved: that the concrete heap-machine programs only perform VALID
-writes (the written object, if it has an id, belongs to the executing realm and
-is not deleted) — for real programs that is the VM's readonly check plus the
-no-dangling clause, and `dangling_counterexample` shows that with nested
-finalizes of several realms a program CAN reach a deleted object; the owner
-clause (false as stated), no-dangling, reachability and the stored-hash clause
-are checked by the correspondence run and the raw-store oracle only.
+* for the CONCRETE PROGRAMS of realm 0 no side condition is left
+  (`realm0_programs_refcounts_and_no_dangling`): after every committed
+  transaction of every history of heap-machine scripts on realm `ha`, every
+  reference count is exact and no slot of a counted object dangles.
+
+What is NOT proved: the same for programs that cross realms (hb calling ha):
+`dangling_counterexample` shows that with nested finalizes of two realms a
+program CAN reach a deleted object, so the statement is false there; the owner
+clause (false as stated), reachability and the stored-hash clause are checked
+by the correspondence run and the raw-store oracle only.
 Helper lemmas: Proofs/C06Basic, C06Count, C06Update, C06Finalize, C06Closure,
-C06Marks, C06Tx, C06Clause.
+C06Marks, C06Tx, C06Clause, C06Prim, C06Hist, C06Dangle, C06Shape, C06Prog.
 -/
 namespace GnoVerif.C06
 open State
@@ -266,6 +269,36 @@ theorem initState_quiescent2 : Quiescent2 initState 0 := by
       have : initState.heap.length = 10 := by decide
       omega)] at hx
     exact absurd hx (by decide)
+
+/-- the deployment state is a boundary in the sense of the realm-0 programs -/
+theorem initState_boundary : Boundary initState := by
+  refine ⟨initState_quiescent2, by decide, ⟨by decide, by decide, by decide⟩, fun i hi => ?_, fun x hx h hh => ?_⟩
+  · have : i = 0 ∨ i = 1 ∨ i = 2 ∨ i = 3 := by omega
+    rcases this with h | h | h | h <;> subst h <;> decide
+  · rcases hx with ⟨i, hi, rfl⟩ | ⟨h10, hl, _⟩
+    · have : i = 0 ∨ i = 1 ∨ i = 2 ∨ i = 3 := by omega
+      rcases this with h' | h' | h' | h' <;> subst h' <;> simp [initState, initRealm, State.get, rootAddr, nRoots] at hh
+    · have : initState.heap.length = 10 := by decide
+      omega
+
+theorem history_realm0 (scripts : List (List Char)) :
+    history (scripts.map fun c => (0, c)) = history0 initState scripts := by
+  unfold history history0
+  generalize initState = s
+  induction scripts generalizing s with
+  | nil => rfl
+  | cons c cs ih => simp only [List.map_cons, List.foldl_cons]; exact ih _
+
+/-- THE PROGRAMS OF REALM 0: after every committed transaction of EVERY history of heap-machine
+    scripts run on realm `ha` (attach, detach, share, re-attach, move, delete, cycles; a script that
+    panics is rolled back), every reference count is exact and no slot of a counted object dangles.
+    No side condition on the programs: that they only perform valid writes is proved. -/
+theorem realm0_programs_refcounts_and_no_dangling (scripts : List (List Char)) :
+    RCI (history (scripts.map fun c => (0, c))) (fun _ => 0) ∧
+    NoDangling (history (scripts.map fun c => (0, c))) := by
+  rw [history_realm0]
+  have b := history0_boundary scripts initState initState_boundary
+  exact ⟨b.q.base.rci, b.q.noDangling⟩
 
 /-- non-vacuity of `transaction_keeps_refcounts'`: the deployment state is a valid start, and
     `R0 = nil; R1 = nil` is a valid list of writes of realm 0 -/
